@@ -41,7 +41,9 @@ CONSTANTS
   Bug_ReuseAfterTornTail,      \* a log with a partial trailing record is reused for appending
   Bug_WriteErrorSwallowed,     \* a failed WAL append is acknowledged as success
   Bug_ManifestErrorSwallowed,  \* a failed manifest append is treated as installed
-  Bug_FileCounterNotRestored   \* recovery takes the file-number counter from the manifest only
+  Bug_FileCounterNotRestored,  \* recovery takes the file-number counter from the manifest only
+  Compaction,                  \* whether table compactions are part of the model (BOOLEAN)
+  Bug_InputsDeletedBeforeManifest \* compaction inputs removed before the manifest records the output
 
 VARIABLES
   \* ---- disk
@@ -445,6 +447,83 @@ FailFlushManifest ==
   /\ UNCHANGED <<disk, up, mem, imm, ver, curWal, logWal, manNo, nextFile, reuseOpt, recWals,
                  job, started, acked, nextB, crashes, failed>>
 
+---------------------------------------------------------------------------
+(* TABLE COMPACTION: the tables of the current version are merged into one output table.  Create *)
+(* the output, write it completely, append the manifest record (output added, inputs deleted),   *)
+(* install the version; only then does the deletion pass remove the inputs.                      *)
+
+CompPick ==
+  /\ Compaction /\ up = "up" /\ pc = "idle" /\ imm = {} /\ ~bad
+  /\ Cardinality(ver) >= 2
+  /\ \E ins \in SUBSET ver :
+       /\ Cardinality(ins) >= 2
+       /\ job' = [k |-> "comp", ins |-> ins, t |-> 0]
+  /\ pc' = "comp1"
+  /\ UNCHANGED <<disk, up, mem, imm, ver, curWal, logWal, manNo, nextFile, reuseOpt, recWals,
+                 ghost, bad>>
+  /\ NoAppend
+
+Comp1 ==   \* create the output table
+  /\ pc = "comp1"
+  /\ tab' = (NextNo :> [bs |-> TabBatches(job.ins), done |-> FALSE]) @@ tab
+  /\ nextFile' = NextNo
+  /\ job' = [job EXCEPT !.t = NextNo]
+  /\ pc' = "comp2"
+  /\ UNCHANGED <<wal, man, cur, tmp, up, mem, imm, ver, curWal, logWal, manNo, reuseOpt, recWals,
+                 ghost, bad>>
+  /\ NoAppend
+
+Comp2 ==   \* write it completely
+  /\ pc = "comp2"
+  /\ tab' = [tab EXCEPT ![job.t].done = TRUE]
+  /\ lastAppend' = [k |-> "tab", n |-> job.t]
+  /\ pc' = IF Bug_InputsDeletedBeforeManifest THEN "compgc" ELSE "comp3"
+  /\ UNCHANGED <<wal, man, cur, tmp, up, mem, imm, ver, curWal, logWal, manNo, nextFile,
+                 reuseOpt, recWals, job, started, acked, nextB, crashes, bad, failed,
+                 faults>>
+
+CompGcEarly ==  \* deviation: the inputs go before the manifest knows about the output
+  /\ pc = "compgc"
+  /\ \E t \in job.ins \cap DOMAIN tab : tab' = Drop(tab, t)
+  /\ pc' = IF Cardinality(job.ins \cap DOMAIN tab) = 1 THEN "comp3" ELSE "compgc"
+  /\ UNCHANGED <<wal, man, cur, tmp, up, mem, imm, ver, curWal, logWal, manNo, nextFile,
+                 reuseOpt, recWals, job, ghost, bad>>
+  /\ NoAppend
+
+Comp3 ==   \* manifest record: output added, inputs deleted
+  /\ pc = "comp3"
+  /\ man' = AppendFrag(man, manNo,
+               [add |-> {job.t}, del |-> job.ins, logWal |-> logWal, next |-> nextFile], 1)
+  /\ lastAppend' = [k |-> "man", n |-> manNo]
+  /\ pc' = "comp4"
+  /\ UNCHANGED <<wal, tab, cur, tmp, up, mem, imm, ver, curWal, logWal, manNo, nextFile,
+                 reuseOpt, recWals, job, started, acked, nextB, crashes, bad, failed,
+                 faults>>
+
+Comp4 ==   \* install the version; the deletion pass removes the inputs
+  /\ pc = "comp4"
+  /\ ver' = (ver \ job.ins) \cup {job.t}
+  /\ pc' = "gc"
+  /\ UNCHANGED <<disk, up, mem, imm, curWal, logWal, manNo, nextFile, reuseOpt, recWals, job,
+                 ghost, bad>>
+  /\ NoAppend
+
+\* C08: building the output fails: background error, nothing installed (the output is an orphan)
+FailCompTable ==
+  /\ pc \in {"comp1", "comp2"} /\ faults < MaxFaults
+  /\ faults' = faults + 1 /\ bad' = TRUE /\ pc' = "idle"
+  /\ NoAppend
+  /\ UNCHANGED <<disk, up, mem, imm, ver, curWal, logWal, manNo, nextFile, reuseOpt, recWals,
+                 job, started, acked, nextB, crashes, failed>>
+
+FailCompManifest ==
+  /\ pc = "comp3" /\ faults < MaxFaults
+  /\ faults' = faults + 1 /\ bad' = TRUE
+  /\ pc' = IF Bug_ManifestErrorSwallowed THEN "comp4" ELSE "idle"
+  /\ NoAppend
+  /\ UNCHANGED <<disk, up, mem, imm, ver, curWal, logWal, manNo, nextFile, reuseOpt, recWals,
+                 job, started, acked, nextB, crashes, failed>>
+
 \* a clean close
 Close ==
   /\ up = "up" /\ pc = "idle"
@@ -488,6 +567,7 @@ Next ==
   \/ WriteStart \/ WriteWal \/ WriteMem \/ WriteAck
   \/ Rotate \/ Flush1 \/ Flush2 \/ FlushGcEarly \/ Flush3 \/ Flush4
   \/ FailWal \/ FailFlushTable \/ FailFlushManifest
+  \/ CompPick \/ Comp1 \/ Comp2 \/ CompGcEarly \/ Comp3 \/ Comp4 \/ FailCompTable \/ FailCompManifest
   \/ Close
   \/ Crash(FALSE) \/ Crash(TRUE)
 
